@@ -8,3 +8,17 @@ pub mod world;
 pub fn quiet_panics() {
     std::panic::set_hook(Box::new(|_| {}));
 }
+
+struct StderrLog;
+impl log::Log for StderrLog {
+    fn enabled(&self, _: &log::Metadata) -> bool { true }
+    fn log(&self, r: &log::Record) { eprintln!("[{}] {}", r.level(), r.args()); }
+    fn flush(&self) {}
+}
+/// with VH_LOG set, statime's own log output goes to stderr (debugging aid for replay files)
+pub fn maybe_log() {
+    if std::env::var("VH_LOG").is_ok() {
+        let _ = log::set_logger(&StderrLog);
+        log::set_max_level(log::LevelFilter::Debug);
+    }
+}
